@@ -18,9 +18,19 @@ import (
 
 func (l *ledger) contractSupplyOracle(b *types.Block, miner common.Address, byHash map[common.Hash]*ledgerTx, contractClass map[common.Address]string) {
 	c := l.c
+	// parent-side facts come from the capture taken before the block was inserted (see ledger.captureParent)
 	parentCode := func(a common.Address) bool {
+		if v, ok := l.pvCode[a]; ok && l.pvHash == b.ParentHash() {
+			return v
+		}
 		code, _ := account.NewManager(b.ParentHash(), l.n.DB).GetAccount(a).GetCode()
 		return len(code) > 0
+	}
+	parentBal := func(a common.Address) *big.Int {
+		if v, ok := l.pvBal[a]; ok && l.pvHash == b.ParentHash() {
+			return v
+		}
+		return l.n.balanceAt(b.ParentHash(), a)
 	}
 	// ---- expected burn, by the harness's own reading of the transactions (independent of the logs)
 	burn := new(big.Int)
@@ -38,7 +48,7 @@ func (l *ledger) contractSupplyOracle(b *types.Block, miner common.Address, byHa
 				c.Count("contract:call-out-of-gas")
 			case cls == "create-killer-self":
 				// the contract's whole balance — endowment, earlier deposits, the value of this call — is destroyed
-				burn.Add(burn, l.n.balanceAt(b.ParentHash(), to))
+				burn.Add(burn, parentBal(to))
 				burn.Add(burn, tx.Amount())
 				destroyed[to] = true
 				c.Count("contract:self-destruct-to-itself")
@@ -78,7 +88,7 @@ func (l *ledger) contractSupplyOracle(b *types.Block, miner common.Address, byHa
 	}
 	byView := new(big.Int)
 	for a := range named {
-		nb, ob := l.n.balanceAt(b.Hash(), a), l.n.balanceAt(b.ParentHash(), a)
+		nb, ob := l.n.balanceAt(b.Hash(), a), parentBal(a)
 		byView.Add(byView, new(big.Int).Sub(nb, ob))
 		if nb.Sign() < 0 {
 			c.Fail("c05/negative-balance", fmt.Sprintf("contract block %d: balance of %s becomes %s", b.Height(), a.String(), nb.String()), nil)
@@ -127,7 +137,7 @@ func (l *ledger) contractSupplyOracle(b *types.Block, miner common.Address, byHa
 				fmt.Fprintf(os.Stderr, "TX type=%d from=%s to=%s amount=%s gasUsed=%d/%d\n", tx.Type(), tx.From().String(), to, tx.Amount().String(), tx.GasUsed(), tx.GasLimit())
 			}
 			for a := range named {
-				fmt.Fprintf(os.Stderr, "VIEW %s %s -> %s\n", a.String(), l.n.balanceAt(b.ParentHash(), a), l.n.balanceAt(b.Hash(), a))
+				fmt.Fprintf(os.Stderr, "VIEW %s %s -> %s\n", a.String(), parentBal(a), l.n.balanceAt(b.Hash(), a))
 			}
 			fmt.Fprintf(os.Stderr, "burn=%s byView=%s byLogs=%s\n", burn, byView, byLogs)
 		}
